@@ -807,14 +807,19 @@ func c07Bound(p *Prog, r *Report, b *bufInfo, inLoop map[*ssa.BasicBlock]bool) {
 	}
 	// nil predicate: no second invocation
 	for _, t := range NilTests(fn, func(v ssa.Value) bool { return isFieldLoad(stripConv(v), b.typ, "retryPredicate") }) {
-		seen := Reach(fn, t.If, nil, func(e Edge) bool { return !(e.B == t.NonNil.B && e.K == t.NonNil.K) })
-		r.Check(!seen[b.handler], "C07.R5", sn+": no retry without a retry condition", p.InstrPos(t.If), "on the predicate == nil edge the handler is not reachable again", "with no retry condition configured the handler can still be invoked again")
+		nilOnly := func(e Edge) bool { return !(e.B == t.NonNil.B && e.K == t.NonNil.K) }
+		again := Reach(fn, t.If, nil, nilOnly)[b.handler] && feasiblePathExists(fn, t.If, b.handler, nilOnly)
+		r.Check(!again, "C07.R5", sn+": no retry without a retry condition", p.InstrPos(t.If), "on the predicate == nil edge the handler is not reachable again", "with no retry condition configured the handler can still be invoked again")
 	}
 }
 
 // OnlyViaEdgeFrom: target is reachable from `from` only along edge e.
 func OnlyViaEdgeFrom(fn *ssa.Function, from, target ssa.Instruction, e Edge) bool {
-	return !Reach(fn, from, nil, func(x Edge) bool { return !(x.B == e.B && x.K == e.K) })[target]
+	ok := func(x Edge) bool { return !(x.B == e.B && x.K == e.K) }
+	if !Reach(fn, from, nil, ok)[target] {
+		return true
+	}
+	return !feasiblePathExists(fn, from, target, ok)
 }
 
 func c07FunctionMap(p *Prog, r *Report, funcs map[string]*ssa.Function, pkg string) {
